@@ -52,6 +52,15 @@ def gate_story_case(draw):
 
 
 @st.composite
+def fully_heralded_case(draw):
+    prog = draw(gen.fully_heralded_program(max_n=3))
+    prog, _ = gen.limit_loss(prog, 2)
+    return {"prog": prog, "inputs": [[]], "ps": None, "expected": [[[]]],
+            "use_expected": draw(st.booleans()), "single_expected": draw(st.booleans()),
+            "pc": True, "exp_perm": [0]}
+
+
+@st.composite
 def story_case(draw):
     kind = draw(st.integers(0, 3))
     if kind == 0:
@@ -265,4 +274,5 @@ def run_story(case):
 def subs(tier):
     q = tier == "quick"
     return [Sub("story", run_story, strategy=story_case(), examples=120 if q else 1500),
+            Sub("fully-heralded", run_story, strategy=fully_heralded_case(), examples=20 if q else 300),
             Sub("gate-story", run_story, strategy=gate_story_case(), examples=40 if q else 500)]
